@@ -433,24 +433,50 @@ Definition opt_list {A} (l : list (option A)) : option (list A) :=
   fold_right (fun o acc => match o, acc with Some a, Some r => Some (a :: r) | _, _ => None end) (Some []) l.
 
 Lemma element_columns_exact :
-  pt_E = "X"%string :: map e_sym srd_elements /\
-  Some pt_Z = option_map (cons 0) (opt_list (map e_Z srd_elements)) /\
-  Some pt_name = option_map (cons "Dummy"%string) (opt_list (map e_name srd_elements)).
+  pt_E = app (map (fun r => snd (fst r)) srd_dummy_elems) (map e_sym srd_elements) /\
+  Some pt_Z = option_map (app (map (fun r => fst (fst r)) srd_dummy_elems)) (opt_list (map e_Z srd_elements)) /\
+  Some pt_name = option_map (app (map snd srd_dummy_elems)) (opt_list (map e_name srd_elements)).
 Proof. vm_compute. repeat split. Qed.
 
-Lemma keys_only_srd : forallb (fun k => str_mem k ("X" :: "X0" :: srd_labels)%string) pt_EA = true.
-Proof. vm_cast_no_check (@eq_refl bool true). Qed.
+Lemma keys_only_srd : forallb (fun k => str_mem k (app dummy_labels srd_labels)) pt_EA = true.
+Proof. vm_compute. reflexivity. Qed.
 
 Lemma key_is_srd k :
   In k pt_EA ->
-  k = "X"%string \/ k = "X0"%string \/
+  In k dummy_labels \/
   exists e, In e srd_elements /\ (k = e_sym e \/ exists i, In i (e_isos e) /\ In k (i_labels (e_sym e) i)).
 Proof.
   intro H. pose proof keys_only_srd as A. rewrite forallb_forall in A. specialize (A _ H).
-  apply str_mem_In in A. destruct A as [A|[A|A]]; [left; now symmetry|right; left; now symmetry|].
-  right; right. unfold srd_labels in A. apply in_flat_map in A. destruct A as [e [He A]].
+  apply str_mem_In in A. apply in_app_or in A. destruct A as [A|A]; [left; exact A|].
+  right. unfold srd_labels in A. apply in_flat_map in A. destruct A as [e [He A]].
   exists e; split; [exact He|]. destruct A as [A|A]; [left; now symmetry|].
   right. apply in_flat_map in A. destruct A as [i [Hi A]]. exists i; split; assumption.
+Qed.
+
+(** the dummy rows, as seeded by the build script: every dummy species label gives the dummy element, mass number and
+    mass of its row; every dummy element's Z / symbol / name resolve (strictly too) to its symbol *)
+Definition dummy_species_ok (r : string * string * Z * string) : bool :=
+  outcome_eqb String.eqb (to_E (PStr (dm_EA r)) false) (Ok (dm_EE r)) &&
+  outcome_eqb Z.eqb (to_A (PStr (dm_EA r))) (Ok (dm_A r)) &&
+  outcome_eqb String.eqb (to_mass_str (PStr (dm_EA r))) (Ok (dm_mass r)).
+Definition dummy_elem_ok (r : Z * string * string) : bool :=
+  let '(z, e, n) := r in
+  forallb (fun b => outcome_eqb String.eqb (resolve (PInt z) b) (Ok e) && outcome_eqb String.eqb (resolve (PStr e) b) (Ok e)
+                    && outcome_eqb String.eqb (resolve (PStr n) b) (Ok e) && outcome_eqb Z.eqb (to_Z (PStr e) b) (Ok z)
+                    && outcome_eqb String.eqb (to_element (PStr e) b) (Ok n)) [false; true].
+Lemma dummy_rows_ok : forallb dummy_species_ok srd_dummy_species && forallb dummy_elem_ok srd_dummy_elems = true.
+Proof. vm_compute. reflexivity. Qed.
+
+Lemma dummy_species_faithful r :
+  In r srd_dummy_species ->
+  to_E (PStr (dm_EA r)) false = Ok (dm_EE r) /\ to_A (PStr (dm_EA r)) = Ok (dm_A r) /\
+  to_mass_str (PStr (dm_EA r)) = Ok (dm_mass r).
+Proof.
+  intro H. pose proof dummy_rows_ok as A. rewrite andb_true_iff in A. destruct A as [A _].
+  rewrite forallb_forall in A. specialize (A _ H). unfold dummy_species_ok in A.
+  rewrite !andb_true_iff in A. destruct A as [[A1 A2] A3].
+  repeat split; [apply (outcome_eqb_ok _ string_eqb_true), A1|apply (outcome_eqb_ok _ Z_eqb_true), A2|
+                 apply (outcome_eqb_ok _ string_eqb_true), A3].
 Qed.
 
 (** the dummy row *)
